@@ -656,13 +656,43 @@ func (rn *runner) runCase(argv []string, marks []bool, stdinKind string) {
 	}
 	op := fmt.Sprintf("run argv=%s stdin=%s world=%s %s", argvText(argv, marks), stdinKind, rn.p.worldText(rn.f, argv), note(argv))
 	obs := fmt.Sprintf("all=%s singles=%s", obsText(all, inputs, groups), s)
+	nruns := 1 + len(singles)
+	if av, has := withoutRepl(argv); has {
+		obs += " norepl=" + obsText(runMain(av, rn.p.files, stdin), inputs, groups)
+		nruns++
+		rn.o.Stat("repl_cases", 1)
+	}
 	rn.o.Case(op, obs)
-	rn.o.Stat("runs_of_main", 1+len(singles))
+	rn.o.Stat("runs_of_main", nruns)
 	rn.o.Stat(fmt.Sprintf("exit_%d", all.exit), 1)
 	// non-trivial: at least two input files, or a failure of any class
 	if len(marked) >= 2 || all.exit != 0 {
 		rn.o.Class(op)
 	}
+}
+
+// withoutRepl removes -i / --repl (also inside a combined short group) from a command line of the generator's
+// shapes (tokens before `--` only)
+func withoutRepl(argv []string) ([]string, bool) {
+	var out []string
+	has := false
+	for i, a := range argv {
+		if a == "--" {
+			out = append(out, argv[i:]...)
+			break
+		}
+		switch {
+		case a == "-i" || a == "--repl":
+			has = true
+			continue
+		case len(a) > 2 && a[0] == '-' && a[1] != '-' && !strings.Contains(a, "=") && strings.Contains(a[1:], "i") &&
+			strings.Trim(a[1:], "nrcjCMUVsRi") == "":
+			has = true
+			a = "-" + strings.ReplaceAll(a[1:], "i", "")
+		}
+		out = append(out, a)
+	}
+	return out, has
 }
 
 type pendingParse struct {
